@@ -8,6 +8,7 @@ mod ops;
 mod sched;
 mod search;
 mod solve;
+mod timeops;
 mod tour;
 mod trans;
 
@@ -44,6 +45,7 @@ fn main() {
         "trans" => trans::run(&case, &mut out),
         "mcf" => mcf::run(&case, &mut out),
         "f32" => f32ops::run(&case, &mut out),
+        "time" => timeops::run(&case, &mut out),
         "ops" => ops::run(&case, &mut out),
         "lsearch" => search::run_lsearch(&case, &mut out),
         "neigh" => search::run_neigh(&case, &mut out),
